@@ -14,10 +14,10 @@ ID = "C20"
 LEVEL = "exploration"
 TECHNIQUE = "Hypothesis-generated prediction matrices / id arrays / posterior samples compared with direct loop-based recomputations of every metric"
 RULE = (
-    "prediction matrices (1..12 experiments x 1..9 samples) of finite floats with chain labellings of unequal chain lengths or one chain, unicode sample names; "
+    "prediction matrices (1..12 experiments x 1..9 samples) of finite floats with chain labellings of unequal chain lengths or one chain, unicode sample names; evaluations of production size (200..2049 experiments x 30..300 samples, fixed 700x300, 1025x64, 65537x1, 3x65537; thorough also 4100x257, 70001x16) against exactly summed definitions; "
     "id arrays of arity 2 and 3 with repeated single-agent measurements, control in any column and missing single-agent measurements; synergy on arity 2 with "
     ">=1 non-control per row, strict on/off; similarity matrix for 2..4 samples and 2..5 mapping entries with additive posterior samples. Non-trivial = unequal "
-    "chain lengths, a repeated single-agent measurement, or a missing one. distinct = distinct case JSON."
+    "chain lengths, a repeated single-agent measurement, or a missing one, or a production-size evaluation. distinct = distinct case JSON."
 )
 ASSUMPTIONS = [
     "tolerance rtol 1e-10 (1e-8 for the similarity matrix)",
@@ -79,8 +79,22 @@ def _similarity(draw):
     return {"kind": "similarity", "screen": sc, "thetas": thetas}
 
 
+@st.composite
+def _evaluation_big(draw):
+    """evaluations of production size (hundreds to thousands of experiments x tens to hundreds of posterior samples), described
+    by their parameters; the matrix is a pure function of them"""
+    e = draw(st.one_of(st.integers(200, 1100), st.sampled_from([219, 700, 1023, 1024, 1025, 2049])))
+    t = draw(st.one_of(st.integers(30, 300), st.sampled_from([63, 64, 65, 257, 300])))
+    return {"kind": "evaluation_big", "E": e, "T": t, "n_chains": draw(st.integers(1, 4)), "seed": draw(st.integers(0, 2**32 - 1))}
+
+
 def strategy(tier):
-    return st.one_of(_evaluation(), _effects(), _effects(), _similarity())
+    return st.one_of(_evaluation(), _evaluation(), _effects(), _effects(), _effects(), _effects(), _similarity(), _similarity(), _evaluation_big())
+
+
+def exhaustive(tier):
+    for e, t in [(700, 300), (1025, 64), (65537, 1), (3, 65537)] + ([(4100, 257), (70001, 16)] if tier != "quick" else []):
+        yield {"kind": "evaluation_big", "E": e, "T": t, "n_chains": 3 if t >= 3 else 1, "seed": e + t}
 
 
 def _close(a, b, rtol=1e-10):
@@ -125,6 +139,39 @@ def _check_evaluation(case):
     sizes = [int(np.sum(ch == c)) for c in set(ch.tolist())]
     labels = ["evaluation", "chains=%d" % len(sizes)]
     return {"nontrivial": len(set(sizes)) > 1, "labels": labels + (["unequal-chains"] if len(set(sizes)) > 1 else [])}
+
+
+def _check_evaluation_big(case):
+    from batchie.models.main import ModelEvaluation
+
+    E, T = case["E"], case["T"]
+    r = np.random.default_rng(case["seed"])
+    P = r.uniform(0, 1, size=(E, T))
+    # errors grow along the experiments and differ between chains, so that any re-weighting of rows or columns shows
+    P += np.linspace(0, 1.5, E)[:, None] ** 2
+    y = r.uniform(0, 1, size=E)
+    cuts = sorted(r.choice(np.arange(1, T), size=min(case["n_chains"], T) - 1, replace=False).tolist()) if T > 1 else []
+    ch = np.zeros(T, dtype=int)
+    for c_ in cuts:
+        ch[c_:] += 1
+    P += 0.3 * ch[None, :]
+    me = ModelEvaluation(predictions=P.copy(), observations=y.copy(), chain_ids=ch.copy(), sample_names=np.array(["s%d" % (i % 7) for i in range(E)]))
+    sq = (P - y[:, None]) ** 2
+    mse = math.fsum(sq.ravel().tolist()) / (E * T)
+    per_e = [math.fsum(row) / T for row in sq.tolist()]
+    mbar = math.fsum(per_e) / E
+    var_e = math.fsum((x - mbar) ** 2 for x in per_e) / E
+    chain_mses = []
+    for c in sorted(set(ch.tolist())):
+        cols = np.where(ch == c)[0]
+        chain_mses.append(math.fsum(sq[:, cols].ravel().tolist()) / (E * len(cols)))
+    cbar = math.fsum(chain_mses) / len(chain_mses)
+    var_c = math.fsum((x - cbar) ** 2 for x in chain_mses) / len(chain_mses)
+    require(_close(me.mse(), mse), "mse.large", lambda: "%d experiments x %d samples: mse %r, direct %r" % (E, T, me.mse(), mse))
+    require(_close(me.mse_variance(), var_e), "mse_variance.large", lambda: "%d x %d: mse_variance %r, variance across experiments of the per-experiment MSE %r" % (E, T, me.mse_variance(), var_e))
+    require(_close(me.inter_chain_mse_variance(), var_c, rtol=1e-8), "inter_chain_mse_variance.large", lambda: "%d x %d: inter-chain variance %r, variance of per-chain MSEs %r" % (E, T, me.inter_chain_mse_variance(), var_c))
+    require(_close(me.mean_predictions, [math.fsum(row) / T for row in P.tolist()]), "mean_predictions.large", "mean_predictions is not the average over posterior samples")
+    return {"nontrivial": True, "labels": ["evaluation_big", "entries>=2^%d" % int(math.log2(E * T))]}
 
 
 def _oracle_map(sid, tid, obs):
@@ -259,6 +306,8 @@ def _check_similarity(case):
 def check_case(case):
     if case["kind"] == "evaluation":
         return _check_evaluation(case)
+    if case["kind"] == "evaluation_big":
+        return _check_evaluation_big(case)
     if case["kind"] == "effects":
         return _check_effects(case)
     return _check_similarity(case)
